@@ -628,10 +628,13 @@ def main(ctx):
     ctx.lake_build(["GojaModel.C13.Props", "GojaModel.C13.Tie"])
     # the driver does not depend on Props/Tie: a broken theorem or tie must not switch the correspondence off
     ok, errs = ctx.lake_build(["model_c13"])
-    ctx.audit("GojaModel.C13.Props", expect_min=48)
-    if not quick:
-        ctx.leanchecker("GojaModel.C13.Props")
-    ctx.log("lean done")
+    # the axiom audit (and leanchecker) only read the built .olean files: run them while the streams run
+    def audit_job():
+        ctx.audit("GojaModel.C13.Props", expect_min=50)
+        if not quick:
+            ctx.leanchecker("GojaModel.C13.Props")
+    f_audit = bg.submit(audit_job)
+    ctx.log("lean built")
     h = f_go.result()
     ctx.log("go build done")
     model = ctx.model_exe()
@@ -648,6 +651,7 @@ def main(ctx):
         "typed nil pointers / nil map[string]interface{} / nil *[]interface{} coming back as untyped nil is documented ('Nil is converted to null')",
     ]
     if h is None:
+        f_audit.result()
         return ctx.finish(rule="harness did not build")
 
     # ---------------- cases
@@ -657,6 +661,7 @@ def main(ctx):
         for fn in sorted(os.listdir(cdir)):
             if fn.endswith(".txt"):
                 corpus += [l.strip() for l in open(os.path.join(cdir, fn)) if l.strip() and not l.startswith("#")]
+    corpus_set = set(corpus)
     nW = 800 if quick else 40000
     nP = 400 if quick else 40000
     nT = 200 if quick else 12000
@@ -789,7 +794,8 @@ def main(ctx):
             sub = ops[:k + 1]
             if sig not in found:
                 try:
-                    sub = Ctx.ddmin(sub, fails)
+                    if both[i] not in corpus_set:      # corpus lines are minimised already
+                        sub = Ctx.ddmin(sub, fails)
                 except Exception:
                     pass
                 l2 = " ".join(pre + sub)
@@ -841,7 +847,9 @@ def main(ctx):
             if sig == "mapset-export-ignores-cache" and sig in found:
                 continue
             line2 = both[i]
-            if sig == "mapset-export-ignores-cache":
+            if sig == "mapset-export-ignores-cache" and both[i] in corpus_set:
+                hres_i = hres[i]
+            elif sig == "mapset-export-ignores-cache":
                 # shrink: drop fields while implementation and isomorphic image still differ
                 toks = both[i].split(); changed = True
                 while changed:
@@ -939,11 +947,24 @@ def main(ctx):
     kres = f_k.result()
     ctx.count(len(K))
     kbad = []
+    kspec = {}
+    def lean_spec_K(line):
+        """documented semantics of a K history: NestedSpec.lean through the driver; python spec_K only as fallback"""
+        if model_ok:
+            rc, o, _ = ctx.run_lines([model], ["KS" + line[1:]], timeout=300)
+            if o and not o[0].startswith("BAD"):
+                return [None if x == "?" else x for x in o[0].split(" ; ")]
+        return spec_K(line)
+    if model_ok:
+        rc, ks, err = ctx.run_lines([model], ["KS" + l[1:] for l in K], timeout=3600)
+        if len(ks) == len(K):
+            kspec = {l: [None if x == "?" else x for x in r.split(" ; ")] for l, r in zip(K, ks) if not r.startswith("BAD")}
+    ctx.stats["K_judged_by_lean_spec"] = len(kspec)
     for line, r in zip(K, kres):
         ctx.nontriv(line)
         if r.startswith("INCONCLUSIVE"):
             continue
-        spec = spec_K(line)
+        spec = kspec.get(line) or spec_K(line)
         for k, (got, want) in enumerate(zip(r.split(" ; "), spec)):
             if want is None:
                 break
@@ -958,7 +979,10 @@ def main(ctx):
             l2 = " ".join(pre + sub)
             rc, o, _ = ctx.run_lines([h], [l2], timeout=300)
             if not o: return False
-            return any(w is not None and g != w for g, w in zip(o[0].split(" ; "), spec_K(l2)))
+            for g, w in zip(o[0].split(" ; "), lean_spec_K(l2)):
+                if w is None: return False
+                if g != w: return True
+            return False
         try:
             ops_k = Ctx.ddmin(ops_k, kfails)
         except Exception:
@@ -966,8 +990,8 @@ def main(ctx):
         l2 = " ".join(pre + ops_k)
         rc, o, _ = ctx.run_lines([h], [l2], timeout=300)
         sig = "PANIC" in (o or [""])[0] and "nested-wrapper-panic" or "nested-wrapper-not-repointed"
-        report(sig, "a nested field wrapper (p.In) does not follow the value its parent element wrapper denotes: %s -> %s (documented: %s)" % (l2, (o or ["?"])[0][:300], " ; ".join(x or "?" for x in spec_K(l2))[:300]),
-               {"kind": "history", "lines": [l2], "expected": spec_K(l2), "observed": o})
+        report(sig, "a nested field wrapper (p.In) does not follow the value its parent element wrapper denotes: %s -> %s (documented: %s)" % (l2, (o or ["?"])[0][:300], " ; ".join(x or "?" for x in lean_spec_K(l2))[:300]),
+               {"kind": "history", "lines": [l2], "expected": lean_spec_K(l2), "observed": o})
 
     # Y: within ONE ExportTo the same script object must be the same Go value at every destination of the same type,
     # whatever the order of untyped (interface{}) and typed (struct pointer / named map / typed slice) visits
@@ -1014,6 +1038,8 @@ def main(ctx):
                "one ExportTo into mixed interface{} / typed destinations: %s -> %s (one Go value per (script object, destination type): %s)" % (l2, res[0][:300], (res[1] or "?")[:300]),
                {"kind": "input", "lines": [l2], "expected": [res[1]], "observed": [res[0]]})
 
+    f_audit.result()
+    ctx.log("audit done")
     for sig, (summary, replay) in found.items():
         ctx.violation(sig, summary, replay)
     for l in W[:3] + P[:2] + T[:2] + Sx[40:43]:
